@@ -11,6 +11,10 @@ import (
 
 func (r *runner) runOpMore(p *flags.Parser, op *OpSpec, or *OpResult) {
 	switch op.Op {
+	case "observe":
+		// nothing happens: only the observations are taken
+		or.Err = "nil"
+		or.Ret = "nil"
 	case "attach":
 		// AddGroup / AddCommand / AddOption in the middle of a history
 		err, pan := r.applyAttach(p, op.Attach)
